@@ -1,0 +1,11 @@
+//go:build !verif
+
+package validate
+
+// Verification hooks (build tag "verif"): without the tag they compile to nothing.
+
+const verifEnabled = false
+
+func verifBorrow[T any](_ string, obj T) T { return obj }
+
+func verifRedeemed(_ string, _ any) {}
